@@ -93,6 +93,18 @@ CHECKS["C07"] = dict(
     technique="path-sensitive typestate exploration with inlining + exact predicate folding + bounded-write dataflow",
     design="3/C07")
 
+CHECKS["C01"] = dict(
+    text="Decides the framing invariants that make the delivery property possible, on all paths of the tcp/tls/ux messaging ops (helpers "
+         "inlined): at most one outbound frame (mbuf_set only on a buffer known empty, assertions not counted as knowledge); the resume "
+         "pointer/length are recomputed from the progress counter after every update; a delivered message is removed from the receive "
+         "buffer on every path, reads ask for exactly the missing part and a short read is never success; nothing larger than capacity is "
+         "returned; the header codec of writer and readers agrees; the blocking message loop hands a message over exactly once and the "
+         "byte-stream loop adds only non-negative results; UTLS uses its single active leg; UX is SEQPACKET with MSG_EOR/MSG_TRUNC. "
+         "Not decided: equality of the two endpoints' message sequences under all schedules (a relation between run-time histories).",
+    note=TRUSTED + " Kernel SEQPACKET semantics and OpenSSL below btls are trusted.",
+    technique="path-sensitive typestate exploration with inlining + reaching-definition and value-range dataflow + structural agreement",
+    design="3/C01")
+
 NOT_APPLICABLE = {}
 
 
